@@ -182,7 +182,7 @@ Record cinv (c : client) : Prop := {
   ci_toc : forall x, In x (ctoc c) -> In (x, GROUPP) (capp c)
 }.
 
-Lemma cinv_fresh ep t : cinv (mkC true ep t [] [] false [] [] [] [] None 0 [] false [] false false []).
+Lemma cinv_fresh ep t : cinv (mkC true ep t [] [] false [] [] [] [] None 0 [] false [] false false [] false).
 Proof.
   constructor; simpl.
   - auto.
@@ -732,4 +732,311 @@ Proof.
   induction tr as [|e tr IH]; intros s s' H G; simpl in H.
   - inversion H; subst; exact G.
   - destruct (step s e) as [s1|] eqn:S; [|discriminate]. eapply IH; eauto. eapply step_gcinv; eauto.
+Qed.
+
+(* ---------- consequences: what is written, and when EndTxn leaves ---------------------------------- *)
+(* a batch that the leader appends belongs to the application transaction that is open in its
+   producer: same transaction index, state neither READY nor UNINITIALIZED, records accepted in it *)
+Lemma produce_in_txn s i b s' :
+  gcinv s -> step s (RProduce i b VApplied) = Some s' ->
+  exists c x, nth_error (clients s) i = Some c /\ bid x = b /\ In x (bq c) /\
+              btag x = kcur c /\ cst c <> READY /\ cst c <> UNINIT /\
+              (forall y, In y (bitems x) -> In (y, bpart x) (accepted c)) /\
+              glog (genv s') = glog (genv s) ++ [(bpart x, Data (cep c) (i, kcur c) (bitems x))].
+Proof.
+  intros G H. unfold step in H.
+  destruct (nth_error (clients s) i) as [c|] eqn:Hn; [|discriminate].
+  destruct (take_bid b (inflight c ++ match cst c with FATAL => deadb c | _ => [] end)) as [[x r]|] eqn:T;
+    [|discriminate].
+  destruct (Nat.eqb (cep c) (eep (genv s))); [|discriminate]. inversion H; subst; clear H.
+  pose proof (gcinv_get _ _ _ G Hn) as Ci.
+  destruct (take_bid_some _ _ _ _ T) as (T1 & T2 & _).
+  assert (Xin : In x (bq c)).
+  { unfold bq. rewrite !in_app_iff in *. destruct T1 as [T1|T1]; auto.
+    destruct (cst c); simpl in T1; try contradiction; auto. }
+  destruct (ci_tag _ Ci x Xin) as (B1 & B2 & B3).
+  exists c, x. repeat split; auto.
+  - intros R. destruct (ci_idle _ Ci (or_intror R)) as (A1 & A2 & A3 & _).
+    unfold bq in Xin. rewrite A1, A2, A3 in Xin. destruct Xin.
+  - intros R. destruct (ci_idle _ Ci (or_introl R)) as (A1 & A2 & A3 & _).
+    unfold bq in Xin. rewrite A1, A2, A3 in Xin. destruct Xin.
+  - simpl. rewrite B1. reflexivity.
+Qed.
+
+(* EndTxn leaves only when nothing is queued, in flight or pending; and unless a batch failed,
+   everything the transaction accepted has been appended by then *)
+Lemma endtxn_after_acks s i commit v s' :
+  gcinv s -> step s (REndTxn i commit v) = Some s' ->
+  exists c, get s i = Some c /\ queue c = [] /\ inflight c = [] /\ pend_parts c = [] /\ pend_offs c = [] /\
+            (lostb c = false -> incl (accepted c) (capp c)).
+Proof.
+  intros G H. unfold step in H.
+  destruct (get s i) as [c|] eqn:Hg; [|discriminate]. destruct (get_some _ _ _ Hg) as (Hn & _).
+  match type of H with (if ?g then _ else _) = _ => destruct g eqn:Gd; [|discriminate] end.
+  apply andb_prop in Gd. destruct Gd as [Gd _].
+  apply andb_prop in Gd. destruct Gd as [Gd _]. apply andb_prop in Gd. destruct Gd as [Gd Gpo].
+  apply andb_prop in Gd. destruct Gd as [Gd Gpp]. apply andb_prop in Gd. destruct Gd as [Gd Gi].
+  apply andb_prop in Gd. destruct Gd as [_ Gq].
+  apply is_niln_nil in Gpo. apply is_niln_nil in Gi. apply is_niln_nil in Gq. apply is_niln_nil in Gpp.
+  exists c. repeat split; auto.
+  intros L [x p] A. pose proof (gcinv_get _ _ _ G Hn) as Ci.
+  destruct (ci_acc _ Ci L _ _ A) as [K|[(b & K1 & _)|(_ & l & K1 & _)]]; auto.
+  - rewrite Gq, Gi in K1. destruct K1.
+  - rewrite Gpo in K1. destruct K1.
+Qed.
+
+(* ---------- partitions: muting and registration -------------------------------------------------------- *)
+(* as long as error_transaction / fatal_error has not cleared the sets, every queued or in-flight
+   batch is for a partition that is registered (_txn_partitions) or waiting to be
+   (_pending_txn_partitions) *)
+Definition pinv (c : client) : Prop :=
+  cerr c = false -> forall b, In b (queue c ++ inflight c) -> In (bpart b) (txn_parts c) \/ In (bpart b) (pend_parts c).
+
+Definition gpinv (s : gstate) : Prop := Forall pinv (clients s).
+Lemma gpinv_get s i c : gpinv s -> nth_error (clients s) i = Some c -> pinv c.
+Proof. unfold gpinv. intros F H. rewrite Forall_forall in F. apply F. eapply nth_error_In; eauto. Qed.
+Lemma gpinv_put s i c' : gpinv s -> pinv c' -> gpinv (put s i c').
+Proof. unfold gpinv, put. simpl. intros. apply Forall_set_nth; auto. Qed.
+
+Lemma pinv_same c c' : pinv c -> cerr c' = cerr c -> queue c' = queue c -> inflight c' = inflight c ->
+  txn_parts c' = txn_parts c -> pend_parts c' = pend_parts c -> pinv c'.
+Proof. unfold pinv. intros P A B C D E. rewrite A, B, C, D, E. exact P. Qed.
+
+Lemma head_of_in p q h : head_of p q = Some h -> In h q /\ bpart h = p.
+Proof.
+  induction q as [|b q IH]; simpl; [discriminate|]. destruct (Nat.eqb (bpart b) p) eqn:E.
+  - intros H. inversion H; subst. apply Nat.eqb_eq in E. auto.
+  - intros H. destruct (IH H). auto.
+Qed.
+
+Lemma step_gpinv s e s' : step s e = Some s' -> gcinv s -> gpinv s -> gpinv s'.
+Proof.
+  intros H GC G. destruct e; unfold step in H; cbv beta iota zeta in H.
+  - destruct (est (genv s)); inv_some. exact G.
+  - destruct (est (genv s)); inv_some. exact G.
+  - destruct (est (genv s)); inv_some; exact G.
+  - (* AStart *)
+    destruct (get s i) as [c|] eqn:Hg; [|discriminate]. destruct (get_some _ _ _ Hg) as (Hn & _).
+    destruct (cst c) eqn:E0; try discriminate. destruct (trans UNINIT READY); [|discriminate].
+    destruct (memn ep (eissued (genv s))); [|discriminate]. inv_some.
+    unfold gpinv. simpl. apply Forall_set_nth; [exact G|].
+    eapply pinv_same; [eapply gpinv_get; eauto | reflexivity ..].
+  - (* ABegin *)
+    wc H c c' Hg Hf. destruct (get_some _ _ _ Hg) as (Hn & _).
+    destruct (slot c); [discriminate|]. destruct (trans (cst c) IN_TXN) eqn:T; [|discriminate]. inv_some.
+    apply trans_in_txn in T. destruct (ci_idle _ (gcinv_get _ _ _ GC Hn) (or_intror T)) as (Q & I & _).
+    apply gpinv_put; auto. unfold pinv. simpl. rewrite Q, I. intros _ b [].
+  - (* AAccept *)
+    wc H c c' Hg Hf. destruct (get_some _ _ _ Hg) as (Hn & _). pose proof (gpinv_get _ _ _ G Hn) as P.
+    destruct (cst c) eqn:S; try discriminate. destruct (Nat.eqb p GROUPP); [discriminate|].
+    destruct newb.
+    + destruct (has_part_q p (queue c) || has_bid b (queue c ++ inflight c ++ deadb c)); [discriminate|].
+      inv_some. apply gpinv_put; auto. unfold pinv. simpl. intros E b0 Hb.
+      rewrite <- app_assoc in Hb. apply in_app_or in Hb.
+      assert (K : forall q, In q (txn_parts c) \/ In q (pend_parts c) ->
+                  In q (txn_parts c) \/ In q (if memn p (txn_parts c) || memn p (pend_parts c)
+                                             then pend_parts c else pend_parts c ++ [p])).
+      { intros q [K|K]; auto. right. destruct (memn p (txn_parts c) || memn p (pend_parts c)); auto.
+        apply in_or_app. auto. }
+      destruct Hb as [Hb|Hb]; [apply K; apply P; auto; apply in_or_app; auto|].
+      simpl in Hb. destruct Hb as [Hb|Hb].
+      * subst b0. simpl. destruct (memn p (txn_parts c)) eqn:M1; simpl.
+        -- left. apply memn_In. exact M1.
+        -- right. destruct (memn p (pend_parts c)) eqn:M2; [apply memn_In; exact M2|].
+           apply in_or_app. right. left. reflexivity.
+      * apply K. apply P; auto. apply in_or_app. auto.
+    + destruct (snoc_item p b x (queue c)) eqn:SN; [|discriminate]. inv_some.
+      apply gpinv_put; auto. unfold pinv. simpl. intros E b0 Hb.
+      destruct (snoc_item_spec _ _ _ _ _ SN) as (S1 & _). apply in_app_or in Hb. destruct Hb as [Hb|Hb].
+      * destruct (S1 _ Hb) as [K|(b1 & K1 & _ & K2 & _)].
+        -- apply P; auto. apply in_or_app. auto.
+        -- rewrite K2. apply P; auto. apply in_or_app. auto.
+      * apply P; auto. apply in_or_app. auto.
+  - (* AOffsets *)
+    wc H c c' Hg Hf. destruct (get_some _ _ _ Hg) as (Hn & _).
+    destruct (cst c); try discriminate. inv_some.
+    apply gpinv_put; auto. eapply pinv_same; [eapply gpinv_get; eauto | reflexivity ..].
+  - (* ACommitting *)
+    wc H c c' Hg Hf. destruct (get_some _ _ _ Hg) as (Hn & _).
+    destruct (trans (cst c) COMMITTING) eqn:T.
+    + destruct (cst c); inv_some; apply gpinv_put; auto;
+        (eapply pinv_same; [eapply gpinv_get; eauto | reflexivity ..]).
+    + destruct (cst c); discriminate.
+  - (* AAborting *)
+    wc H c c' Hg Hf. destruct (get_some _ _ _ Hg) as (Hn & _).
+    destruct (trans (cst c) ABORTING); [|discriminate]. inv_some.
+    apply gpinv_put; auto. eapply pinv_same; [eapply gpinv_get; eauto | reflexivity ..].
+  - (* AComplete *)
+    destruct (get s i) as [c|] eqn:Hg; [|discriminate]. destruct (get_some _ _ _ Hg) as (Hn & _).
+    match type of H with (if ?g then _ else _) = _ => destruct g eqn:Gd; [|discriminate] end.
+    apply andb_prop in Gd. destruct Gd as [Gd _]. apply andb_prop in Gd. destruct Gd as [Gd Gi].
+    apply andb_prop in Gd. destruct Gd as [_ Gq]. apply is_niln_nil in Gi. apply is_niln_nil in Gq.
+    assert (K : exists t, clients s' = set_nth i (set_deadb (set_grp (set_parts (set_cst c t) [] (pend_parts c)) false) [])
+                                               (clients s)).
+    { destruct (cst c); try discriminate; destruct (trans _ READY) eqn:T; try discriminate;
+        inversion H; eexists; reflexivity. }
+    destruct K as (t & K). unfold gpinv. rewrite K. apply Forall_set_nth; [exact G|].
+    unfold pinv. simpl. rewrite Gq, Gi. intros _ b [].
+  - (* AError *)
+    wc H c c' Hg Hf.
+    assert (K : exists t, c' = c_clear c t).
+    { destruct (slot c) as [[[] ?]|]; try discriminate; destruct (cst c); try discriminate;
+        match type of Hf with match ?t with _ => _ end = _ => destruct t eqn:T end; try discriminate;
+        inversion Hf; eauto. }
+    destruct K as (t & ->). apply gpinv_put; auto. unfold pinv, c_clear. simpl. discriminate.
+  - (* AFatal *)
+    wc H c c' Hg Hf. destruct (trans (cst c) FATAL); [|discriminate]. inv_some.
+    apply gpinv_put; auto. unfold pinv, c_clear. simpl. discriminate.
+  - (* AKill *)
+    destruct (nth_error (clients s) i) as [c|] eqn:Hn; [|discriminate]. inv_some.
+    apply gpinv_put; auto. eapply pinv_same; [eapply gpinv_get; eauto | reflexivity ..].
+  - (* TPick *)
+    wc H c c' Hg Hf. destruct (get_some _ _ _ Hg) as (Hn & _).
+    destruct (slot c); [discriminate|].
+    destruct k as [k1|]; destruct (next_kind c) as [k2|]; try discriminate.
+    + destruct (skind_eqb k1 k2); [|discriminate]. inv_some.
+      apply gpinv_put; auto. eapply pinv_same; [eapply gpinv_get; eauto | reflexivity ..].
+    + inv_some. apply gpinv_put; auto. eapply gpinv_get; eauto.
+  - (* TDone *)
+    wc H c c' Hg Hf. destruct (get_some _ _ _ Hg) as (Hn & _).
+    destruct (slot c); [|discriminate]. inv_some.
+    apply gpinv_put; auto. eapply pinv_same; [eapply gpinv_get; eauto | reflexivity ..].
+  - (* CPartAdded *)
+    wc H c c' Hg Hf. destruct (get_some _ _ _ Hg) as (Hn & _). pose proof (gpinv_get _ _ _ G Hn) as P.
+    destruct (slot_is c KParts SApplied && memn p (pend_parts c)); [|discriminate]. inv_some.
+    apply gpinv_put; auto. unfold pinv. simpl. intros E b Hb. destruct (P E b Hb) as [K|K].
+    + left. apply addn_In. auto.
+    + destruct (Nat.eq_dec (bpart b) p) as [->|N].
+      * left. apply addn_In. auto.
+      * right. apply remn_In. auto.
+  - (* CGroupAdded *)
+    wc H c c' Hg Hf. destruct (get_some _ _ _ Hg) as (Hn & _).
+    destruct (slot_is c KOffs SApplied); [|discriminate]. inv_some.
+    apply gpinv_put; auto. eapply pinv_same; [eapply gpinv_get; eauto | reflexivity ..].
+  - (* COffCommitted *)
+    wc H c c' Hg Hf. destruct (get_some _ _ _ Hg) as (Hn & _).
+    destruct (slot_is c KToc SApplied && memn x (ctoc c)); [|discriminate].
+    destruct (pend_offs c) as [|items rest]; [discriminate|].
+    destruct (memn x items); [|discriminate]. inv_some.
+    apply gpinv_put; auto. eapply pinv_same; [eapply gpinv_get; eauto | reflexivity ..].
+  - (* SDrain *)
+    wc H c c' Hg Hf. destruct (get_some _ _ _ Hg) as (Hn & _). pose proof (gpinv_get _ _ _ G Hn) as P.
+    destruct (take_bid b (queue c)) as [[x q]|] eqn:T; [|discriminate].
+    destruct (head_of (bpart x) (queue c)); [|discriminate].
+    match type of Hf with (if ?g then _ else _) = _ => destruct g; [|discriminate] end. inv_some.
+    destruct (take_bid_some _ _ _ _ T) as (T1 & _ & T3 & _).
+    apply gpinv_put; auto. unfold pinv. simpl. intros E b1 Hb. rewrite !in_app_iff in Hb. simpl in Hb.
+    destruct Hb as [Hb|[Hb|[Hb|[]]]].
+    + apply P; auto. apply in_or_app. auto.
+    + apply P; auto. apply in_or_app. auto.
+    + subst b1. simpl. apply P; auto. apply in_or_app. auto.
+  - (* SOk *)
+    wc H c c' Hg Hf. destruct (get_some _ _ _ Hg) as (Hn & _). pose proof (gpinv_get _ _ _ G Hn) as P.
+    destruct (take_bid b (inflight c)) as [[x f]|] eqn:T.
+    + destruct (bapp x); [|discriminate]. inv_some. destruct (take_bid_some _ _ _ _ T) as (_ & _ & T3 & _).
+      apply gpinv_put; auto. unfold pinv. simpl. intros E b1 Hb. apply P; auto.
+      rewrite !in_app_iff in *. destruct Hb; auto.
+    + destruct (cst c); try discriminate. destruct (has_bid b (deadb c)); [|discriminate]. inv_some.
+      apply gpinv_put; auto.
+  - (* SRetry *)
+    wc H c c' Hg Hf. destruct (get_some _ _ _ Hg) as (Hn & _). pose proof (gpinv_get _ _ _ G Hn) as P.
+    destruct (take_bid b (inflight c)) as [[x f]|] eqn:T.
+    + inv_some. destruct (take_bid_some _ _ _ _ T) as (T1 & _ & T3 & _).
+      apply gpinv_put; auto. unfold pinv. simpl. intros E b1 Hb. apply P; auto.
+      apply in_or_app. destruct Hb as [Hb|Hb]; [subst b1; auto|].
+      apply in_app_or in Hb. destruct Hb as [Hb|Hb]; auto.
+    + destruct (cst c); try discriminate. destruct (has_bid b (deadb c)); [|discriminate]. inv_some.
+      apply gpinv_put; auto.
+  - (* SFail *)
+    wc H c c' Hg Hf. destruct (get_some _ _ _ Hg) as (Hn & _). pose proof (gpinv_get _ _ _ G Hn) as P.
+    destruct (take_bid b (inflight c)) as [[x f]|] eqn:T.
+    + inv_some. destruct (take_bid_some _ _ _ _ T) as (_ & _ & T3 & _).
+      apply gpinv_put; auto. unfold pinv. simpl. intros E b1 Hb. apply P; auto.
+      rewrite !in_app_iff in *. destruct Hb; auto.
+    + destruct (take_bid b (queue c)) as [[x q]|] eqn:T2.
+      * inv_some. destruct (take_bid_some _ _ _ _ T2) as (_ & _ & T3 & _).
+        apply gpinv_put; auto. unfold pinv. simpl. intros E b1 Hb. apply P; auto.
+        rewrite !in_app_iff in *. destruct Hb; auto.
+      * destruct (cst c); try discriminate. destruct (has_bid b (deadb c)); [|discriminate]. inv_some.
+        apply gpinv_put; auto.
+  - (* RAddParts *)
+    destruct (get s i) as [c|] eqn:Hg; [|discriminate]. destruct (get_some _ _ _ Hg) as (Hn & _).
+    destruct (slot_is c KParts SPicked && list_eqb ps (pend_parts c) && negb (is_niln ps)); [|discriminate].
+    destruct v.
+    + destruct (Nat.eqb (cep c) (eep (genv s)) && not_prep (genv s)); [|discriminate]. inv_some.
+      apply (gpinv_put s i); auto. eapply pinv_same; [eapply gpinv_get; eauto | reflexivity ..].
+    + inv_some. apply gpinv_put; auto. eapply pinv_same; [eapply gpinv_get; eauto | reflexivity ..].
+  - (* RAddOffs *)
+    destruct (get s i) as [c|] eqn:Hg; [|discriminate]. destruct (get_some _ _ _ Hg) as (Hn & _).
+    destruct (slot_is c KOffs SPicked); [|discriminate].
+    destruct v.
+    + destruct (Nat.eqb (cep c) (eep (genv s)) && not_prep (genv s)); [|discriminate]. inv_some.
+      apply (gpinv_put s i); auto. eapply pinv_same; [eapply gpinv_get; eauto | reflexivity ..].
+    + inv_some. apply gpinv_put; auto. eapply pinv_same; [eapply gpinv_get; eauto | reflexivity ..].
+  - (* RToc *)
+    destruct (get s i) as [c|] eqn:Hg; [|discriminate]. destruct (get_some _ _ _ Hg) as (Hn & _).
+    destruct (pend_offs c) as [|hd rest]; [discriminate|].
+    destruct (slot_is c KToc SPicked && list_eqb items hd); [|discriminate].
+    destruct v.
+    + destruct (Nat.eqb (cep c) (eep (genv s))); [|discriminate]. inv_some.
+      apply (gpinv_put s i); auto. eapply pinv_same; [eapply gpinv_get; eauto | reflexivity ..].
+    + inv_some. apply gpinv_put; auto. eapply pinv_same; [eapply gpinv_get; eauto | reflexivity ..].
+  - (* REndTxn *)
+    destruct (get s i) as [c|] eqn:Hg; [|discriminate]. destruct (get_some _ _ _ Hg) as (Hn & _).
+    match type of H with (if ?g then _ else _) = _ => destruct g; [|discriminate] end.
+    destruct v.
+    + destruct (Nat.eqb (cep c) (eep (genv s))); [|discriminate].
+      destruct (est (genv s)); try discriminate.
+      * inv_some. apply (gpinv_put s i); auto. eapply pinv_same; [eapply gpinv_get; eauto | reflexivity ..].
+      * destruct (Bool.eqb commit0 commit); [|discriminate]. inv_some. apply gpinv_put; auto.
+        eapply pinv_same; [eapply gpinv_get; eauto | reflexivity ..].
+    + inv_some. apply gpinv_put; auto. eapply pinv_same; [eapply gpinv_get; eauto | reflexivity ..].
+  - (* RProduce *)
+    destruct (nth_error (clients s) i) as [c|] eqn:Hn; [|discriminate].
+    pose proof (gpinv_get _ _ _ G Hn) as P.
+    destruct (take_bid b (inflight c ++ match cst c with FATAL => deadb c | _ => [] end)) as [[x r]|];
+      [|discriminate].
+    destruct v.
+    + destruct (Nat.eqb (cep c) (eep (genv s))); [|discriminate]. inv_some.
+      apply (gpinv_put s i); auto. unfold pinv. simpl. intros E b1 Hb.
+      apply in_app_or in Hb. destruct Hb as [Hb|Hb].
+      * apply P; auto. apply in_or_app. auto.
+      * destruct (mark_app_spec _ _ _ Hb) as [K|(b2 & r2 & K1 & (_ & K3 & _) & _)].
+        -- apply P; auto. apply in_or_app. auto.
+        -- destruct (take_bid_some _ _ _ _ K1) as (K4 & _). rewrite K3. apply P; auto. apply in_or_app. auto.
+    + inv_some. exact G.
+Qed.
+
+Lemma gpinv_g0 n : gpinv (g0 n).
+Proof.
+  unfold gpinv, g0. simpl. apply Forall_forall. intros c H. apply repeat_spec in H. subst.
+  unfold pinv. simpl. intros _ b [].
+Qed.
+
+Lemma run_gpinv : forall tr s s', run s tr = Some s' -> gcinv s -> gpinv s -> gcinv s' /\ gpinv s'.
+Proof.
+  induction tr as [|e tr IH]; intros s s' H G P; simpl in H.
+  - inversion H; subst; auto.
+  - destruct (step s e) as [s1|] eqn:S; [|discriminate]. eapply IH; eauto.
+    + eapply step_gcinv; eauto.
+    + eapply step_gpinv; eauto.
+Qed.
+
+(* a batch is handed to a Produce request only for a partition whose AddPartitionsToTxn was
+   acknowledged in this transaction — unless error_transaction / fatal_error cleared the sets *)
+Lemma drain_registered s i b s' :
+  gpinv s -> step s (SDrain i b) = Some s' ->
+  exists c x, get s i = Some c /\ In x (queue c) /\ bid x = b /\
+              ~ In (bpart x) (pend_parts c) /\ (cerr c = false -> In (bpart x) (txn_parts c)).
+Proof.
+  intros G H. unfold step in H. wc H c c' Hg Hf. destruct (get_some _ _ _ Hg) as (Hn & _).
+  destruct (take_bid b (queue c)) as [[x q]|] eqn:T; [|discriminate].
+  destruct (head_of (bpart x) (queue c)); [|discriminate].
+  match type of Hf with (if ?g then _ else _) = _ => destruct g eqn:Gd; [|discriminate] end.
+  apply andb_prop in Gd. destruct Gd as [Gd _]. apply andb_prop in Gd. destruct Gd as [_ Gm].
+  destruct (take_bid_some _ _ _ _ T) as (T1 & T2 & _).
+  assert (N : ~ In (bpart x) (pend_parts c)).
+  { intros K. apply memn_In in K. rewrite K in Gm. discriminate. }
+  exists c, x. repeat split; auto.
+  intros E. destruct (gpinv_get _ _ _ G Hn E x) as [K|K]; [apply in_or_app; auto | exact K | contradiction].
 Qed.
